@@ -16,6 +16,16 @@ fn universe(k: &str) -> Vec<(&'static str, usize)> {
     "u8" => vec![("0u8", 0), ("1u8", 1), ("2u8", 2), ("7u8", 3), ("255u8", 4)],
     "i64" => vec![("0<i64>", 0), ("1<i64>", 1), ("-2<i64>", 2), ("7<i64>", 3), ("-9<i64>", 4)],
     "r64" => vec![("1/2", 0), ("1/3", 1), ("3/4", 2), ("5/1", 3), ("-2/3", 4), ("2/4", 0), ("6/8", 2)],
+    "u16" => vec![("0u16", 0), ("1u16", 1), ("2u16", 2), ("7u16", 3), ("200u16", 4)],
+    "u32" => vec![("0u32", 0), ("1u32", 1), ("2u32", 2), ("7u32", 3), ("200u32", 4)],
+    "u64" => vec![("0u64", 0), ("1u64", 1), ("2u64", 2), ("7u64", 3), ("200u64", 4)],
+    "u128" => vec![("0u128", 0), ("1u128", 1), ("2u128", 2), ("7u128", 3), ("200u128", 4)],
+    "i8" => vec![("0<i8>", 0), ("1<i8>", 1), ("-2<i8>", 2), ("7<i8>", 3), ("-9<i8>", 4)],
+    "i16" => vec![("0<i16>", 0), ("1<i16>", 1), ("-2<i16>", 2), ("7<i16>", 3), ("-9<i16>", 4)],
+    "i32" => vec![("0<i32>", 0), ("1<i32>", 1), ("-2<i32>", 2), ("7<i32>", 3), ("-9<i32>", 4)],
+    "i128" => vec![("0<i128>", 0), ("1<i128>", 1), ("-2<i128>", 2), ("7<i128>", 3), ("-9<i128>", 4)],
+    "f32" => vec![("0<f32>", 0), ("1<f32>", 1), ("2.5<f32>", 2), ("-1<f32>", 3), ("0.5<f32>", 4)],
+    "c64" => vec![("1+2i", 0), ("2+1i", 1), ("1+1i", 2), ("0+1i", 3), ("3+0i", 4)],
     "string" => vec![("\"a\"", 0), ("\"b\"", 1), ("\"ab\"", 2), ("\"\"", 3), ("\"é\"", 4)],
     "bool" => vec![("true", 0), ("false", 1)],
     "tuple" => vec![("(1,2)", 0), ("(2,1)", 1), ("(1,1)", 2), ("(2,2)", 3), ("(0,5)", 4)],
@@ -77,7 +87,13 @@ impl Prop for C14 {
   fn gen(&self, tier: Tier, seed: u64) -> Vec<Case> {
     let mut out = Vec::new();
     let npairs = if tier == Tier::Quick { 40 } else { 500 };
-    for k in KINDS.iter() {
+    // the other element kinds (set kernels and the element hash have one arm per kind): all of them in the thorough tier, three
+    // per seed in the quick tier, with fewer operand pairs
+    const MORE_KINDS: [&str; 10] = ["u16", "u32", "u64", "u128", "i8", "i16", "i32", "i128", "f32", "c64"];
+    let more: Vec<&str> = if tier == Tier::Quick { (0..3).map(|j| MORE_KINDS[(seed as usize * 3 + j) % MORE_KINDS.len()]).collect() } else { MORE_KINDS.to_vec() };
+    let kinds: Vec<(&str, usize)> = KINDS.iter().map(|k| (*k, npairs)).chain(more.into_iter().map(|k| (k, if tier == Tier::Quick { 8 } else { 80 }))).collect();
+    for (k, npairs) in kinds.iter() {
+      let npairs = *npairs;
       for i in 0..npairs {
         let mut rng = Rng::keyed(seed, &format!("c14{}{}", k, i));
         let a = rand_subset(k, &mut rng, 6); let b = rand_subset(k, &mut rng, 6);
